@@ -46,11 +46,10 @@ impl Date {
 	}
 
 	fn day_of_week(self) -> DayOfWeek {
-		let d1 = (1
-			+ 5 * ((self.year.value() - 1) % 4)
-			+ 4 * ((self.year.value() - 1) % 100)
-			+ 6 * ((self.year.value() - 1) % 400))
-			% 7;
+		// rem_euclid: the formula is periodic, so it extends to years before
+		// 1 AD when the remainders are taken non-negative
+		let y = self.year.astronomical() - 1;
+		let d1 = (1 + 5 * y.rem_euclid(4) + 4 * y.rem_euclid(100) + 6 * y.rem_euclid(400)) % 7;
 		let ms = match self.month {
 			Month::January => (0, 0),
 			Month::February => (3, 3),
